@@ -5,6 +5,31 @@ COMMON_NOTE = ("Trusted: Lean 4.33 kernel (axioms propext, Classical.choice, Quo
                "regenerating Generated.lean from the sources and by replaying implementation traces through the model.")
 PENDING_REASON = {}
 CLAIMS = {
+    "C01": {
+        "text": "Proved by induction over ALL histories ((add|append|overwrite|delete|clear)* build)+ on any indexes, for every oracle "
+                "stream (split normals, random sides, batch lengths = every memory hint), every option set, every cancellation "
+                "schedule, ids anywhere in u32: a successful build leaves metadata listing exactly the stored items and a valid forest "
+                "(every root and child reference resolves, node ids not shared nor reachable twice, no unreferenced tree node, every "
+                "tree reaches every item exactly once), and the index invariant holds again, so the statement iterates. The id "
+                "generator hypothesis is discharged by C13. The executable checker `Check.forestValid` is proved to accept exactly "
+                "such states and is evaluated on EVERY implementation dump; single-thread builds are replayed byte-for-byte "
+                "through the model, multi-thread builds checked by the predicates.",
+        "note": COMMON_NOTE + " Hypotheses: index < 65536, split_after >= 1, n_trees != 0 for the `at least one tree` clause. The recursive "
+                "routines are modelled as pure tree-level functions whose polls are charged afterwards (DESIGN.md section 0).",
+        "technique": "Lean 4 invariant proof by induction over operation histories (heap/frame/write-back library) + byte-exact trace replay + forest predicates on dumps",
+    },
+    "C12": {
+        "text": "Proved for every dimension and every component bit pattern (signed zeros, NaNs of both signs, infinities): unpack(pack v) "
+                "is the sign pattern at the declared dimension with all-(-1) padding, packing depends on signs only; Hamming = number of "
+                "differing signs, symmetric, zero iff equal patterns; the built distances are functions of h only (4h, 2h, the closed "
+                "cosine formula with the exactly computed norm product), zero (+0.0) for equal patterns for all three metrics at every "
+                "dimension, in [0,1] for cosine, symmetric, monotone in h (Euclidean/Manhattan for all h; cosine up to 320 dimensions). "
+                "Real crate: every conversion path (from_slice, iter, to_vec/SSE) and every quantised distance compared bit for bit with "
+                "the model for dims 1..300, exhaustive sign patterns for small d.",
+        "note": COMMON_NOTE + " Strict monotonicity of the cosine distance in h beyond 320 dimensions is not proved (division rounding "
+                "monotonicity missing). The NEON conversion paths are not modelled.",
+        "technique": "Lean 4 theorems over bit patterns (incl. soft-float sqrt/div exactness lemmas) + bit-exact differential of all conversion paths",
+    },
     "C02": {
         "text": "Proved: on any store holding a valid forest (the predicate the build theorem establishes), an unlimited-budget query "
                 "returns exactly the min(count, n) stored items nearest under the model's bit-exact metric, sorted by (distance, id), each "
